@@ -68,7 +68,7 @@ def shard_fn(shard, nshards, seed, tier, exe, ntexts, ntrees):
             cmds.append("LP %d %d %d x%s" % (flags, depth, mode, t.hex()))
             if mode == 1 and (len(cmds) % 3) == 0:
                 # the same text fed incrementally: numbers straddle calls, every call is monitored
-                cmds.append("LPC %d %d %d x%s" % (flags, depth, 1 + (len(cmds) // 3) % 7, t.hex()))
+                cmds.append("LPC %d %d %d x%s" % (flags, depth, (1 + (len(cmds) // 3) % 7) * (-1 if (len(cmds) // 3) % 2 and b"\0" not in t else 1), t.hex()))
         for ti, (toks, flags, rfmt) in enumerate(trees):
             cmds += ["B 0 " + " ".join(toks), "LS 0 %d" % flags]
             k = ti % 6
